@@ -317,7 +317,8 @@ int main(int argc, char** argv) {
                         const Array_<Real>& est = integ->getEstimatedEventTimes();
                         for (int i = 0; i < (int)est.size(); ++i) js << (i ? "," : "") << num(est[i]);
                         js << "],\"q\":" << num(m.slider.getOneQ(integ->getState(), 0))
-                           << ",\"tscale\":" << num(m.system.getDefaultTimeScale());
+                           << ",\"tscale\":" << num(m.system.getDefaultTimeScale())
+                           << ",\"acc\":" << num(integ->getAccuracyInUse());
                     }
                     if (wantMan && exc.empty() && st != -1) js << ",\"man\":" << manifold(m, *integ, integ->getState());
                     js << ",\"exc\":" << mj::quote(exc.substr(0, 200)) << "}";
